@@ -223,6 +223,23 @@ func c14ImageCheck(cs c14ImgCase) (bad bool, msg string) {
 			m.Pix[i*4+3] = uint8(i >> 8)
 		}
 		src = m
+	case "RGBA64-black": // a shadow gradient: colour constant, only alpha varies from pixel to pixel
+		m := image.NewRGBA64(rect)
+		for i := 0; i < 65536; i++ {
+			a := (i*40503 + 7) & 0xffff
+			m.Pix[i*8+6], m.Pix[i*8+7] = uint8(a>>8), uint8(a)
+		}
+		src = m
+	case "NYCbCrA":
+		m := image.NewNYCbCrA(image.Rect(0, 0, 256, 256), image.YCbCrSubsampleRatio420)
+		rng.Fill(m.Y)
+		rng.Fill(m.Cb)
+		rng.Fill(m.Cr)
+		for i := range m.A {
+			m.A[i] = uint8(i >> 8) // 256 x 256: every 8-bit alpha
+		}
+		rect = m.Rect
+		src = m
 	}
 	dst := newConcrete(cs.Dst, rect)
 	rng.Fill(pixOf(dst)) // a reused destination: every pixel must be overwritten, transparent ones too
@@ -240,7 +257,7 @@ func c14ImageCheck(cs c14ImgCase) (bad bool, msg string) {
 			case *image.RGBA64:
 				o = d.RGBA64At(x, y)
 				aout = uint32(o.A)
-				if cs.Fn == "LineariseImage" && cs.Src != "NRGBA64" && (o.R > o.A || o.G > o.A || o.B > o.A) {
+				if cs.Fn == "LineariseImage" && cs.Src != "NRGBA64" && cs.Src != "NYCbCrA" && (o.R > o.A || o.G > o.A || o.B > o.A) {
 					return true, fmt.Sprintf("%+v: pixel (%d,%d) %v linearised to %v, not validly premultiplied", cs, x, y, src.At(x, y), o)
 				}
 			case *image.NRGBA64:
@@ -268,7 +285,7 @@ func c14Images(r *core.Run) {
 	rng := core.NewRNG(r.Seed, "C14", "images")
 	for _, s := range libSpaces {
 		for _, fn := range []string{"LineariseImage", "EncodeImage"} {
-			for _, src := range []string{"NRGBA64", "RGBA64", "NRGBA"} {
+			for _, src := range []string{"NRGBA64", "RGBA64", "NRGBA", "RGBA64-black", "NYCbCrA"} {
 				for _, dst := range []string{"RGBA64", "NRGBA64", "RGBA", "NRGBA"} {
 					cases = append(cases, c14ImgCase{s.Name, fn, src, dst, 1 + rng.Intn(8), rng.U64()})
 				}
